@@ -42,6 +42,10 @@ CLAIMS.update({
             "2-16 connections in shared sessions with all modules and the production decorators; concurrent blocks of 2-3 requests (serializability search) and one block of 5-16 simultaneous requests (liveness) per run, under random-walk/PCT schedules with injected task stalls.", "§7 C09"),
     "C10": ("history invariants over every id the server hands out (fresh session id among live sessions, participant/entity ids never reissued per session UUID, type ids <-> names bijective, asset ids unique) and a generator micro-world (no id outstanding twice)",
             "Long create/end cycles, joins, entity/type/asset allocations, concurrent allocation blocks; in a quarter of the runs 1-8 tasks call New/Reuse on one SequentialIDGenerator under the simulated scheduler. Sequences are sampled, not enumerated.", "§7 C10"),
+    "C18": ("per measurement: started only for a joined requester with 3-50 rounds and a wallet; exactly that many pings; one report whose signature recovers the server wallet over exactly the returned data; data names client id, session uuid, wallet; ping id set = ids issued, each once; 0 <= min <= mean <= max, p95 and last within; last = latency of the final round (rounds are given round-trip times 10 ms apart on the simulated clock, tolerance 2 ms); duplicate, unknown and replayed answers are refused and do not advance",
+            "Iteration counts 0-60 and extremes, wallet strings, joined / not joined; client behaviours on the simulated clock: honest, answer a ping twice, answer unknown ids, replay an old answer after completion, restart mid-way, run a second measurement on the same connection.", "§7 C18"),
+    "C19": ("independent validity decision (Keccak-256 from x/crypto/sha3, recoverability from decred RecoverCompact) against what the simulated credit service received: forwarded = valid accepted, at most once, JSON body field for field; exactly one answer per submission (accepted / bad request / too busy); the submitter is still served while the forwarder is stalled",
+            "Valid triples and every single-field corruption, 1-300 submissions from 1-6 connections, credit service up / slow / hanging / refusing (transport stub on the simulated clock), forwarder task stalled by the scheduler so that the queue of 128 fills.", "§7 C19"),
     "C20": ("invariants over the exported fields of the session's RegularGrid after every delivered sample (every stored plane registered in every cell its footprint overlaps, bounds contain every footprint, PlaneCount = distinct stored planes, covering region query returns each exactly once, vertical ray through a centre hits), stored planes never decrease across joins/leaves, what a second member is told over the protocol equals what is stored; the geometric-primitive clause is evaluated on seeded vectors against a math/big reference as a labelled, non-simulated side oracle",
             "Quad samples (finite, |coord| <= 64 m, positive extents; appends, merges, cascade merges, growth in all four directions) sent by 1-3 members interleaved with joins and leaves; region and ray queries from another member.", "§7 C20, §8"),
 })
